@@ -8,7 +8,7 @@
 From Coq Require Import List NArith ZArith QArith Bool.
 From Mathy Require Import Num Expr Util Rules Sem.
 From Mathy Require Import Walk Heap Plans HeapPlan.
-From MathyProofs Require Import ExprFacts RulesSoundA RulesSoundB RulesSoundC RulesSoundD VarsFacts RulesVarsA RulesVarsB RulesVarsC RulesVarsD PlansFacts HeapFacts HeapPlanFacts HeapPlanClone.
+From MathyProofs Require Import ExprFacts RulesSoundA RulesSoundB RulesSoundC RulesSoundD VarsFacts RulesVarsA RulesVarsB RulesVarsC RulesVarsD PlansFacts HeapFacts HeapPlanFacts HeapPlanClone HeapPlanSeq.
 Import ListNotations.
 
 (* the neighbourhood of a rewrite: the node itself, or its parent for the associative rotation *)
@@ -150,6 +150,15 @@ Theorem C07_clone_then_rewrite : forall t e h root node r p z,
        rep h2 (Some root) None t /\ (forall b, In b (iaddrs T') -> (length h <= b)%nat)).
 Proof. exact clone_then_rewrite. Qed.
 Print Assumptions C07_clone_then_rewrite.
+
+(* ... and for every sequence of rewrites (any rules, any nodes), by induction: every heap reached from a well-formed one is
+   well-formed and holds the expression the expression-level model computes; each step writes only objects of the current tree
+   and fresh ones. (all_ok excludes, at each step, only the rotation that makes the node itself the root.) *)
+Theorem C07_heap_sequence : forall steps h T final,
+  wf_tree h T -> run (ierase T) steps = Some final -> all_ok (ierase T) steps = true ->
+  exists h' T', Hreach h T steps h' T' /\ wf_tree h' T' /\ ierase T' = final.
+Proof. exact heap_sequence. Qed.
+Print Assumptions C07_heap_sequence.
 
 Example C07_clone_premises :
   let t := AN (cls_bin KAdd) 1 None None false (AN cls_var 2 None (Some 120%N) false AE AE) (AN cls_const 3 (Some (NInt 2)) None false AE AE) in
